@@ -53,6 +53,20 @@ func TestC12(t *testing.T) {
 			})
 		}
 	}
+	// the application keeps one *ClientConfig for all its plugins (only Cmd is swapped): the replacement plugin is started,
+	// the old one is retired (Kill), then the replacement is connected — "launch the replacement, then retire the old one"
+	nShared := len(cells)
+	for _, proto := range []string{"netrpc", "grpc"} {
+		for _, mode := range []string{"legit", "plaintext", "nocert-plaintext", "other-cert"} {
+			cells = append(cells, Cell{
+				Name:   fmt.Sprintf("impostor %s second-plugin=%s, one shared ClientConfig, first plugin killed between the second's Start and Client()", proto, mode),
+				Plugin: PluginConf{CookieKey: cookieKey, CookieValue: cookieVal, Legacy: 1, LegacyProto: proto, GRPCServer: true, TLS: "none", CertPEM: sibCert, KeyPEM: sibKey, Impostor: "legit"},
+				Host:   HostConf{Allowed: []string{"netrpc", "grpc"}, TLS: "auto", Launch: "cmd", Legacy: 1, SkipHostEnv: true, SharedConfig: true},
+				Ops:    []string{"new", "start", "client", "dispense", "set:5", "get", "newimp:" + mode, "start", "kill:0", "client", "dispense", "set:6", "get", "ping", "kill:1"},
+			})
+		}
+	}
+	_ = nShared
 	results := runCells(base, cells)
 	out := &enumResult{Exhaustive: true, Outcomes: map[string]int{}}
 	for i, r := range results {
@@ -76,9 +90,9 @@ func TestC12(t *testing.T) {
 					bad("control: the honest hand-made AutoMTLS plugin does not work: %s failed: %s", o.Op, o.Err)
 				case k < 6 && o.Op == "get" && o.Val != "5":
 					bad("control: read %s from the honest plugin", o.Val)
-				case k > 6 && k < 13 && mode == "legit" && o.Err != "":
+				case k > 6 && k < 14 && mode == "legit" && o.Err != "":
 					bad("control: a second honest plugin does not work: %s failed: %s", o.Op, o.Err)
-				case k > 7 && k < 13 && mode != "legit" && o.Err == "" && o.Op != "client" && !(o.Op == "dispense" && c.Plugin.LegacyProto == "grpc"): // a gRPC Dispense is local
+				case k > 7 && k < 14 && mode != "legit" && o.Err == "" && o.Op != "client" && !strings.HasPrefix(o.Op, "kill") && !(o.Op == "dispense" && c.Plugin.LegacyProto == "grpc"): // a gRPC Dispense is local
 					answered += " " + o.Op
 				}
 			}
